@@ -173,7 +173,10 @@ def plan_history(rng, T, rate):
             used.append("replace_kind" if how == "replace" else "other_params")
             continue
         if how == "rename_late" :
-            tn = "~t_" + n
+            # the temporary name may be a FRAGMENT of other live names (a rename must touch whole names only)
+            taken = set(tmpl) | set(cur.values()) | set(x.get("rail", "") for x in tmpl.values())
+            frags = [f for x in cur.values() for f in (x[:-1], x[1:], x[:1]) if f and f not in taken]
+            tn = rng.choice(frags) if frags and rng.random() < 0.5 else "~t_" + n
             ops.append(add_op(c, entry(c, name=tn), parents_now, "", group=c.get("group", "")))
             cur[n] = tn
             pending_rename.append(n)
